@@ -25,7 +25,12 @@ class Harness:
     def load(self, name):
         return self.loader.load(name)
 
+    def split(self, fn, target):
+        """prefixes (JSON-able) whose subtrees partition the path space of fn"""
+        return [enc_prefix(p) for p in core.split_prefixes(fn, target, ctx_=self.ctx)]
+
     def explore(self, fn, root=(), max_paths=None):
+        root = dec_prefix(root)
         for p, res, exc in core.explore(fn, root=root, ctx_=self.ctx, max_paths=max_paths):
             self.paths += 1
             yield p, res, exc
@@ -69,6 +74,18 @@ class Harness:
             r['error'] = 'canary patch did not apply: %r' % (unused,)
         r.update(extra)
         return r
+
+
+def enc_prefix(p):
+    return [list(d) if isinstance(d, tuple) else d for d in p]
+
+
+def dec_prefix(p):
+    def t(x):
+        if isinstance(x, list):
+            return tuple(t(y) for y in x)
+        return x
+    return [t(d) for d in (p or [])]
 
 
 def ints(prefix, n, lo=None, hi=None):
